@@ -40,6 +40,7 @@ type FuncContract struct {
 	Modifies  []string
 	ModNone   bool
 	HasMod    bool
+	WeakFrame map[int]bool // loops declared `freshwrites`: weak automatic frame + loop-frame obligations
 	Loops     map[int][]*Clause
 	AtCalls   []*AtCall
 	Thread    bool
@@ -47,6 +48,7 @@ type FuncContract struct {
 	ChanInvs  []*ChanInv
 	Ghosts    []*GhostDecl
 	Extern    bool
+	LockFree  bool // takes no lock and touches no guarded state: callable with any locks held (verified with an arbitrary lock state)
 	Trusted   bool // contract is assumed, body not verified (interface methods, externals)
 	SharedAtomics bool
 	File      string
@@ -79,6 +81,11 @@ type TypeContract struct {
 	Pkg       string
 	Name      string
 	GuardedBy map[string]string // field -> mutex field
+	// Replaced: guarded fields whose map/slice object is never mutated once published (the field is only ever
+	// re-pointed under the lock): reading the object needs no lock, writing it is never allowed
+	Replaced map[string]bool
+	// Confined: fields that are written after construction but by one goroutine only (reason given); assumptions
+	Confined map[string]string
 	LockInv   map[string][]*Clause
 	Ghosts    []*GhostDecl
 }
@@ -189,7 +196,7 @@ func stripComment(s string) string {
 }
 
 var clauseKeywords = map[string]bool{"requires": true, "ensures": true, "modifies": true, "loop": true, "invariant": true, "at": true, "assumes": true,
-	"thread": true, "exit": true, "valid": true, "chaninv": true, "guarded_by": true, "lockinv": true, "ghost": true, "trusted": true, "shared_atomics": true, "decreases": true}
+	"thread": true, "exit": true, "valid": true, "chaninv": true, "guarded_by": true, "lockinv": true, "ghost": true, "trusted": true, "shared_atomics": true, "decreases": true, "confined": true, "lockfree": true, "freshwrites": true}
 
 func (db *ContractDB) errf(file string, line int, format string, args ...interface{}) {
 	db.errors = append(db.errors, fmt.Sprintf("%s:%d: %s", file, line, fmt.Sprintf(format, args...)))
@@ -242,7 +249,7 @@ func (db *ContractDB) parseLines(p *packages.Package, file string, lines []srcLi
 			db.externs[rest] = curFunc
 		case "type":
 			curFunc = nil
-			curType = &TypeContract{Pkg: p.PkgPath, Name: rest, GuardedBy: map[string]string{}, LockInv: map[string][]*Clause{}}
+			curType = &TypeContract{Pkg: p.PkgPath, Name: rest, GuardedBy: map[string]string{}, LockInv: map[string][]*Clause{}, Replaced: map[string]bool{}, Confined: map[string]string{}}
 			db.types[p.PkgPath+"."+rest] = curType
 		case "spec":
 			curFunc, curType = nil, nil
@@ -295,6 +302,10 @@ func (db *ContractDB) parseLines(p *packages.Package, file string, lines []srcLi
 			if curFunc != nil {
 				curFunc.Trusted = true
 			}
+		case "lockfree":
+			if curFunc != nil {
+				curFunc.LockFree = true
+			}
 		case "shared_atomics":
 			if curFunc != nil {
 				curFunc.SharedAtomics = true
@@ -314,6 +325,18 @@ func (db *ContractDB) parseLines(p *packages.Package, file string, lines []srcLi
 				curFunc.Loops[curLoop] = append(curFunc.Loops[curLoop], c)
 			}
 		case "decreases":
+		case "freshwrites":
+			// inside a loop block: every write of the loop that is neither to a loop-invariant address nor to a
+			// statically fresh object hits an object allocated by this function (proved per write: loop-frame);
+			// in exchange the loop's automatic frame keeps all entry-state objects unchanged
+			if curFunc == nil || curLoop == 0 {
+				db.errf(file, it.line, "freshwrites outside loop")
+				continue
+			}
+			if curFunc.WeakFrame == nil {
+				curFunc.WeakFrame = map[int]bool{}
+			}
+			curFunc.WeakFrame[curLoop] = true
 		case "at", "assumes":
 			// at call X#k: assert e        |  assumes call X#k (r0, r1): e
 			if curFunc == nil {
@@ -407,7 +430,24 @@ func (db *ContractDB) parseLines(p *packages.Package, file string, lines []srcLi
 			}
 			mu := strings.TrimSpace(rest[:i])
 			for _, f := range strings.Split(rest[i+1:], ",") {
-				curType.GuardedBy[strings.TrimSpace(f)] = mu
+				f = strings.TrimSpace(f)
+				if strings.HasSuffix(f, "(replaced)") {
+					f = strings.TrimSpace(strings.TrimSuffix(f, "(replaced)"))
+					curType.Replaced[f] = true
+				}
+				curType.GuardedBy[f] = mu
+			}
+		case "confined":
+			// confined f1, f2: reason
+			if curType == nil {
+				continue
+			}
+			i := strings.Index(rest, ":")
+			if i < 0 {
+				continue
+			}
+			for _, f := range strings.Split(rest[:i], ",") {
+				curType.Confined[strings.TrimSpace(f)] = strings.TrimSpace(rest[i+1:])
 			}
 		case "valid":
 			if curType == nil {
